@@ -36,12 +36,12 @@ const TCP_PORT: u16 = 9001;
 // ---------------------------------------------------------------------------
 // scenario generation
 
-fn mk_scenario(id: u64, seed: u64) -> Value {
+fn mk_scenario(id: u64, seed: u64, forced_seed: Option<u64>) -> Value {
     let mut r = SmallRng::seed_from_u64(seed ^ 0x6465_7465_726d);
-    let n = r.random_range(1..=5usize);
+    let n = if forced_seed.is_some() { r.random_range(3..=5usize) } else { r.random_range(1..=5usize) };
     let tick = [1u64, 1, 2, 3, 5][r.random_range(0..5)];
     let lat_min = r.random_range(0..=3u64);
-    let lat_max = lat_min + r.random_range(0..=12u64);
+    let lat_max = lat_min + if forced_seed.is_some() { r.random_range(6..=12u64) } else { r.random_range(0..=12u64) };
     let fail_on = r.random_bool(0.35);
     let steps = r.random_range(30..=70u64);
     let fams_net = ["udp", "tcp", "none"];
@@ -93,13 +93,31 @@ fn mk_scenario(id: u64, seed: u64) -> Value {
     let curve = if r.random_bool(0.3) { json!(r.random_range(1..=9u32)) } else { Value::Null };
     let fail = if fail_on { r.random_range(1..=30u32) } else { 0 };
     let repair = if fail_on { r.random_range(10..=100u32) } else { 100 };
+    // hold, traffic piles up, then a stalled release or manual delivery (early, so that a stall of
+    // "virtual time so far + a few ticks" of real time stays short)
+    if n >= 2 && r.random_bool(0.6) {
+        let a = r.random_range(0..n);
+        let b = (a + 1) % n; // the first peer of a: its UDP / TCP target
+        let s1 = r.random_range(1..=4u64);
+        let s2 = s1 + r.random_range(3..=8u64);
+        let stall = (s2 * tick + r.random_range(2..=5u64) * tick) * 1000;
+        ctl.push(json!({"step": s1, "op": "hold", "a": a, "b": b, "v": 0}));
+        if r.random_bool(0.5) {
+            ctl.push(json!({"step": s2, "op": "release", "a": a, "b": b, "v": 0, "stall_us": stall}));
+        } else {
+            ctl.push(json!({"step": s2, "op": "deliver", "a": a, "b": b, "v": 0, "stall_us": stall}));
+            ctl.push(json!({"step": s2 + r.random_range(2..=6u64), "op": "release", "a": a, "b": b, "v": 0, "stall_us": stall / 2}));
+        }
+    }
+    // boundary seeds are always part of the sample: the first scenarios of every batch use 0 and u64::MAX
+    let world_seed = match forced_seed { Some(x) => x, None => r.random::<u32>() as u64 };
     json!({
-        "id": id, "seed": r.random::<u32>() as u64, "epoch_s": 1_600_000_000u64 + r.random_range(0..1000u64),
+        "id": id, "seed": world_seed, "epoch_s": 1_600_000_000u64 + r.random_range(0..1000u64),
         "tick_ms": tick, "lat_min_ms": lat_min, "lat_max_ms": lat_max,
         "curve": curve,
         "fail": fail,     // percent
         "repair": repair, // percent
-        "random_order": r.random_bool(0.5),
+        "random_order": r.random_bool(0.5) || forced_seed.is_some(),
         "tcp_cap": r.random_range(1..=64u32), "udp_cap": r.random_range(1..=64u32),
         "ipv6": r.random_bool(0.3),
         "fs": {
@@ -120,12 +138,25 @@ fn obs(h: &str, what: &str, v: Value) {
     rec::emit(json!({"ev":"obs","h":h,"what":what,"at":at,"sim":sim,"v":v}));
 }
 
+thread_local! {
+    /// Index of this execution among the four of a scenario (a=0, b=1, c=2, d=3). It scales the REAL time
+    /// the programs / the controller burn: how fast the process runs is not an input of the simulation, so
+    /// the four executions deliberately differ in it (and in nothing else).
+    static RUN_K: std::cell::Cell<u64> = const { std::cell::Cell::new(0) };
+}
+
+fn real_sleep(us: u64) {
+    let k = RUN_K.with(|c| c.get());
+    // run a: half, b: as scripted, c: double, d: none
+    let us = match k { 0 => us / 2, 1 => us, 2 => us * 2, _ => 0 };
+    if us > 0 {
+        std::thread::sleep(Duration::from_micros(us));
+    }
+}
+
 /// Burn real time (no clock is read): stands for computation whose duration varies from run to run.
 fn work(p: &Value) {
-    let w = u(p, "work_us");
-    if w > 0 {
-        std::thread::sleep(Duration::from_micros(w));
-    }
+    real_sleep(u(p, "work_us"));
 }
 
 fn ek<T>(r: &std::io::Result<T>) -> String {
@@ -534,7 +565,8 @@ fn stringify(v: &Value) -> Value {
     Value::Object(out)
 }
 
-fn run_scenario(sc: &Value) -> Vec<Value> {
+fn run_scenario(sc: &Value, k: u64) -> Vec<Value> {
+    RUN_K.with(|c| c.set(k));
     let _ = rec::take();
     rec::with_recorder(|| {
         let mut b = turmoil::Builder::new();
@@ -600,6 +632,8 @@ fn run_scenario(sc: &Value) -> Vec<Value> {
                 let op = c["op"].as_str().unwrap_or("");
                 let v = u(c, "v");
                 let mut extra = Value::Null;
+                // a stall of the test thread (real time only) right before the call
+                real_sleep(u(c, "stall_us"));
                 match op {
                     "crash" => sim.crash(a.as_str()),
                     "bounce" => sim.bounce(a.as_str()),
@@ -612,6 +646,23 @@ fn run_scenario(sc: &Value) -> Vec<Value> {
                     "set_link_latency" => sim.set_link_latency(a.as_str(), bb.as_str(), Duration::from_millis(v)),
                     "set_max_latency" => sim.set_max_message_latency(Duration::from_millis(u(sc, "lat_min_ms") + v)),
                     "curve" => sim.set_message_latency_curve(1.0 + v as f64),
+                    "deliver" => {
+                        // manual delivery (SentRef::deliver) of everything in flight / held between a and b
+                        let (x, y) = (sim.lookup(a.as_str()), sim.lookup(bb.as_str()));
+                        let mut n = 0;
+                        sim.links(|it| {
+                            for link in it {
+                                let (p, q) = link.pair();
+                                if (p == x && q == y) || (p == y && q == x) {
+                                    for sent in link {
+                                        sent.deliver();
+                                        n += 1;
+                                    }
+                                }
+                            }
+                        });
+                        extra = json!({"delivered": n});
+                    }
                     "links" => {
                         let mut l = Vec::new();
                         sim.links(|it| {
@@ -666,7 +717,12 @@ fn main() {
             let seed = util::arg_u64(&args, "seed", 1);
             let count = util::arg_u64(&args, "count", 10);
             let out = util::arg(&args, "out").expect("out=");
-            let v: Vec<Value> = (0..count).map(|i| mk_scenario(i, seed.wrapping_mul(1_000_003).wrapping_add(i))).collect();
+            let v: Vec<Value> = (0..count)
+                .map(|i| {
+                    let forced = match i { 0 | 2 => Some(0u64), 1 | 3 => Some(u64::MAX), _ => None };
+                    mk_scenario(i, seed.wrapping_mul(1_000_003).wrapping_add(i), forced)
+                })
+                .collect();
             util::write_ndjson(&out, &v);
             println!("scenarios={count}");
         }
@@ -674,7 +730,7 @@ fn main() {
             let scs = load(&util::arg(&args, "in").expect("in="));
             let idx = util::arg_u64(&args, "idx", 0) as usize;
             let out = util::arg(&args, "out").expect("out=");
-            util::write_ndjson(&out, &run_scenario(&scs[idx]));
+            util::write_ndjson(&out, &run_scenario(&scs[idx], util::arg_u64(&args, "k", 2)));
         }
         Some("run") => {
             let inp = util::arg(&args, "in").expect("in=");
@@ -685,12 +741,12 @@ fn main() {
             let (mut events, mut netev, mut obsev) = (0usize, 0usize, 0usize);
             for (i, sc) in scs.iter().enumerate() {
                 let mut traces: Vec<Vec<Value>> = Vec::new();
-                traces.push(run_scenario(sc));
-                traces.push(run_scenario(sc));
-                for k in ["c", "d"] {
+                traces.push(run_scenario(sc, 0));
+                traces.push(run_scenario(sc, 1));
+                for (kk, k) in [(2u64, "c"), (3u64, "d")] {
                     let p = format!("{out}/s{i}_{k}.ndjson");
                     let st = std::process::Command::new(&exe)
-                        .args(["--emit", &format!("in={inp}"), &format!("idx={i}"), &format!("out={p}")])
+                        .args(["--emit", &format!("in={inp}"), &format!("idx={i}"), &format!("k={kk}"), &format!("out={p}")])
                         .status().expect("spawn emit");
                     if !st.success() {
                         // a crashed child is an observation too: its trace is what it managed to write (nothing)
@@ -719,7 +775,7 @@ fn main() {
             let scs = load(&util::arg(&args, "in").expect("in="));
             let idx = util::arg_u64(&args, "idx", 0) as usize;
             for k in 0..util::arg_u64(&args, "k", 3) {
-                let t = run_scenario(&scs[idx]);
+                let t = run_scenario(&scs[idx], k % 4);
                 let text: String = t.iter().map(|e| e.to_string()).collect::<Vec<_>>().join("\n");
                 let mut h = 0xcbf29ce484222325u64;
                 for b in text.bytes() {
